@@ -147,6 +147,12 @@ macro_rules! pair {
         if a.partial_cmp(&b) != Some(a.cmp(&b)) {
             return "partial-cmp-differs".to_string();
         }
+        // every spelling of the equality question agrees with ==
+        #[allow(clippy::nonminimal_bool)]
+        let spellings = [!(a != b), !(b != a), vec![a.clone()] == vec![b.clone()], Some(a.clone()) == Some(b.clone()), (a.clone(), 1u8) == (b.clone(), 1u8), !(a < b) && !(a > b), a <= b && a >= b];
+        if spellings.iter().any(|x| *x != (a == b)) {
+            return format!("eq-spellings-disagree eq={} others={:?}", (a == b) as u8, spellings);
+        }
         // duplication: clone() keeps a's text; clone_from(&b) turns the value into b, text included
         // (directly and through Option / Vec, which forward to the element's clone_from)
         let cl = a.clone();
